@@ -89,6 +89,7 @@ def cramerv_measure(
         Whether ``x`` is sufficiently associated to ``y`` and Carmér's V between ``x`` and ``y``.
     """
     # Chi2 statistic
+    measurement = {}
     if chi2_statistic is None:
         _, measurement = chi2_measure(x, y, **kwargs)
         chi2_statistic = measurement.get("chi2_statistic")
@@ -138,6 +139,7 @@ def tschuprowt_measure(
         Whether ``x`` is sufficiently associated to ``y`` and Tschuprow's T between ``x`` and ``y``.
     """
     # Chi2 statistic
+    measurement = {}
     if chi2_statistic is None:
         _, measurement = chi2_measure(x, y, **kwargs)
         chi2_statistic = measurement.get("chi2_statistic")
